@@ -496,4 +496,32 @@ theorem ptrMergeFrom_refines (h : Heap) (pre1 post1 pre2 post2 : List Int) (th o
     rw [setPrev_other _ _ _ _ hxo, setNext_other _ _ _ _ hxl]
     exact hframe x hx
 
+/-- **`pvNewBuffer` 627-628 + `pvNewBlock` 528-529**: a new buffer is linked behind the last buffer -/
+theorem ptrAppend_refines (h : Heap) (L : List Int) (hd nb : Int) (hdll : IsDll h (L ++ [hd]))
+    (hnb : nb ∉ L ++ [hd]) :
+    IsDll (ptrAppend (ptrInit h nb) hd nb) (L ++ [hd] ++ [nb]) ∧
+    ∀ x, x ∉ L ++ [hd] ++ [nb] → ptrAppend (ptrInit h nb) hd nb x = h x := by
+  obtain ⟨hnd, hs⟩ := hdll
+  have e1 : hd ≠ nb := by grind
+  have hndL : hd ∉ L := by grind
+  unfold ptrAppend ptrInit
+  refine ⟨⟨by grind, ?_⟩, ?_⟩
+  · rw [Seg_append]
+    constructor
+    · simp only [headOr_cons]
+      apply Seg_setPrev_notin nb _ (by grind)
+      apply Seg_setNext_last _ L hd none none (some nb) hndL
+      apply Seg_setNext_notin nb _ hnb
+      apply Seg_setPrev_notin nb _ hnb
+      exact hs
+    · rw [lastOr_snoc]
+      refine ⟨by simp, ?_, trivial⟩
+      simp only [setPrev_same, headOr_nil]
+      rw [setNext_other _ _ _ _ e1.symm]
+      simp
+  · intro x hx
+    have e2 : x ≠ nb := by grind
+    have e3 : x ≠ hd := by grind
+    rw [setPrev_other _ _ _ _ e2, setNext_other _ _ _ _ e3, setNext_other _ _ _ _ e2, setPrev_other _ _ _ _ e2]
+
 end Momo.Pool
